@@ -250,7 +250,7 @@ func checkC15(cx *Ctx, r *Report) {
 		if len(sites) == 0 {
 			r.Fail("R-VFG", "setIssuerCtx:value", w.FnPos(f), "the issuer is no longer put into the request context")
 		} else {
-			r.checkSources("R-VFG", "setIssuerCtx:value", w.InstrPos(sites[0]), ls, []string{"dyncall:param:provider.(*IssuerInterceptor).setIssuerCtx/i.issuerFromRequest#0"}, []string{"dyncall:*issuerFromRequest#0"}, true)
+			r.checkSources("R-VFG", "setIssuerCtx:value", w.InstrPos(sites[0]), ls, []string{"dyncall:param:provider.(*IssuerInterceptor).setIssuerCtx/#0.issuerFromRequest#0"}, []string{"dyncall:*issuerFromRequest#0"}, true)
 		}
 		// next.ServeHTTP gets the new request
 		okNew := false
